@@ -10,6 +10,28 @@ from xsdata.models.enums import EventType
 EVENTS = (EventType.START, EventType.END, EventType.START_NS)
 
 
+def merge_text(text: str | None, node: Any) -> str | None:
+    """Append the tails of the comments and processing instructions that follow.
+
+    In a parsed tree comments and processing instructions split the
+    character data of an element into the text/tail of the surrounding
+    nodes and their own tails.
+
+    Args:
+        text: The element text or tail
+        node: The node that follows the text
+
+    Returns:
+        The whole character data up to the next element.
+    """
+    while node is not None and not isinstance(node.tag, str):
+        if node.tail:
+            text = (text or "") + node.tail
+        node = node.getnext()
+
+    return text
+
+
 class LxmlEventHandler(XmlHandler):
     """An lxml event handler."""
 
@@ -36,6 +58,7 @@ class LxmlEventHandler(XmlHandler):
                 EVENTS,
                 recover=True,
                 remove_comments=True,
+                remove_pis=True,
                 load_dtd=self.parser.config.load_dtd,
             )
 
@@ -70,8 +93,8 @@ class LxmlEventHandler(XmlHandler):
                     self.queue,
                     self.objects,
                     element.tag,
-                    element.text,
-                    element.tail,
+                    merge_text(element.text, next(iter(element), None)),
+                    merge_text(element.tail, element.getnext()),
                 )
                 element.clear()
             elif event == EventType.START_NS:
